@@ -145,3 +145,42 @@ Definition norm_item (it : item) : item :=
   | Other k t => Other k t
   end.
 Definition norm_doc (d : doc) : doc := map norm_item d.
+
+(** * What the parser cannot see
+
+    [squash d]: paragraphs emptied of all their fields leave no trace in the dump, so they are
+    dropped, and a run of blank lines that directly follows another (after a paragraph between
+    them was emptied) is one whitespace token: the two items are merged — unless the second is
+    the unterminated whitespace line at the very end, which stays a token of its own.
+    [doc_shape d] = [doc_canon d] without the demand that paragraphs are non-empty and without
+    the restriction on what follows a whitespace item (a second run of blank lines is merged by
+    [squash]): the item structure of every document reachable from a parsed one by field edits
+    and by inserting / appending paragraphs with their separating newline tokens. *)
+Fixpoint squash (d : doc) : doc :=
+  match d with
+  | [] => []
+  | it :: d' =>
+      let r := squash d' in
+      match it with
+      | Para p => if is_nil (para_fields p) then r else it :: r
+      | Other OWs t =>
+          match r with
+          | Other OWs t2 :: r' => if ends_nl t2 then Other OWs (t ++ t2) :: r' else it :: r
+          | _ => it :: r
+          end
+      | _ => it :: r
+      end
+  end.
+
+Definition item_shape (it : item) : bool :=
+  match it with Para _ => true | _ => item_canon it end.
+
+Definition adj_shape (it nx : item) : bool :=
+  match it with Other OWs _ => true | _ => adj_canon it nx end.
+
+Fixpoint doc_shape (d : doc) : bool :=
+  match d with
+  | [] => true
+  | it :: d' =>
+      item_shape it && match d' with nx :: _ => adj_shape it nx | [] => true end && doc_shape d'
+  end.
